@@ -2,5 +2,7 @@
 pub mod broker;
 pub mod broker_mon;
 pub mod broker_run;
+pub mod c15;
 pub mod prng;
 pub mod report;
+pub mod resp_ref;
